@@ -37,6 +37,7 @@ def run(ctx):
     rng = random.Random(ctx.seed)
     nprog = 120 if ctx.tier == "quick" else 1200
     nhist = 100 if ctx.tier == "quick" else 1500
+    ntargeted = len(targeted.all_families())
     cands = targeted.all_families() + progrun.generate(ctx.seed, nprog, sizes=(3, 14))
     fresh = progrun.run_impl(cands)
     good = [i for i, r in enumerate(fresh) if "ok" in r]
@@ -53,7 +54,11 @@ def run(ctx):
             else:
                 steps.append((kind, i, None))
         probe = rng.choice(good)
-        hists.append((steps, probe, False))
+        if h % 5 == 0:
+            # the same traced outputs compiled twice; prefer the targeted families (functions with literals / inputs in their body)
+            tg = [i for i in good if i < ntargeted]
+            probe = tg[(h // 5) % len(tg)]
+        hists.append((steps, probe, "twice" if h % 5 == 0 else False))
     # the same probe twice, with and without timers
     hists.append(([("complete", good[0], None)], good[0], False))
     hists.append(([("complete", good[0], None)], good[0], True))
@@ -75,7 +80,7 @@ def run(ctx):
             pp = os.path.join(d, f"h{hi}_probe.py")
             open(pp, "w").write(surface.to_python(cands[probe]))
             sp = os.path.join(d, f"h{hi}.json")
-            json.dump({"steps": paths, "probe": pp, "timers": timers}, open(sp, "w"))
+            json.dump({"steps": paths, "probe": pp, "timers": timers is True, "probe_twice": timers == "twice"}, open(sp, "w"))
             rc, out, err, dt = vlib.run([vlib.PY, os.path.join(vlib.VERIF, "tools", "run_history.py"), sp], 180, cwd=d,
                                         env=vlib.impl_env())
             ls = [l for l in out.splitlines() if l.startswith("{")]
@@ -142,14 +147,14 @@ def run(ctx):
     for hi in sorted(bad)[:40]:
         steps, probe, timers = hists[hi]
         a = after[hi]
-        if timers and a.get("exc") == "TimerError":
+        if timers is True and a.get("exc") == "TimerError":
             key = "C08/timers:second-compile-raises"
         elif "ok" in a and len(a["ok"]["functions"]) > len(fresh[probe]["ok"]["functions"]):
             key = "C08/stale:functions-of-earlier-programs"
         else:
             key = "C08/history"
         vlib.report_failure(ctx, key, f"the probe compiled after this history differs from the probe compiled alone ({a.get('exc', 'different MIR')})",
-                            dict(case=dict(kind="history", timers=timers,
+                            dict(case=dict(kind="history", timers=(timers is True), probe_compiled_twice=(timers == "twice"),
                                            steps=[dict(kind=k, python_source=(abort_text(cands[i], kk) if k == "abort" else
                                                        surface.to_python(dup_input_prog(cands[i]) if k == "dup" else cands[i])))
                                                   for k, i, kk in steps],
@@ -159,7 +164,7 @@ def run(ctx):
     if ok_x:
         ctx.note(f"tie: model run_after (state carried across programs) vs implementation on {len(hists)} histories: {len(dis)} disagree")
         ctx.cov["model_impl_disagreements"] = len(dis)
-        real = [hi for hi in dis if not hists[hi][2]]
+        real = [hi for hi in dis if hists[hi][2] is not True]
         if real:
             ctx.broken.append(dict(kind="correspondence", what="history model and implementation disagree",
                                    detail=json.dumps([hists[hi][0] for hi in real[:3]])))
